@@ -162,12 +162,18 @@ META["C13"] = dict(
 META["C07"] = dict(
     engine="lean+harness(seq)",
     design_ref="DESIGN.md section 5, C07",
-    technique="Lean fsck (independent reader of all on-disk formats) evaluated on the real directory bytes after every flush/GC/reopen; model files checked too",
+    technique="Lean 4 proof (fsck returns no violation in every reachable state of the physical model; the rescan rebuilds the live table) + the same Lean fsck evaluated on the REAL directory bytes after every flush/GC/reopen",
     text="Sth/Model/Fsck.lean parses headers, snapshot, every index and primary file, freelist and .gc and checks every clause of the "
          "statement; the driver evaluates it on the real bytes (not on the model's) after every quiescent point of generated histories, "
-         "and C03's engine recovers crash images whose follow-up behaviour depends on the same invariant. The theorem C07_fsck (Inv read "
-         "off the disk for every reachable quiescent state) is not yet proved; it rests on the proved C01 invariant for histories "
-         "without GC/reopen.",
+         "and C03's engine recovers crash images whose follow-up behaviour depends on the same invariant. PROVED (Sth/Props/C07.lean): "
+         "C07_fsck_clean (for every legal configuration and every history of Put/Get/Has/GetSize/Remove/Flush/iteration/Close+reopen, "
+         "`fsck kind disk liveTable = []` in EVERY reachable state, no after-a-flush hypothesis), C07_recovered_table (the rescan "
+         "rebuilds the live table in every reachable state; snapshot and rescan agree after Close), clause theorems (bucket points at "
+         "its own complete non-deleted record list above the header's first file; prefixes sorted, prefix-free, locations distinct; "
+         "every entry names a complete non-deleted primary record of the recorded size whose key falls in the bucket and extends the "
+         "prefix; freelist disjoint from live), negative witnesses on concrete corruptions (the checker is not vacuous). Partial: "
+         "histories with GC cycles are covered by the evaluation on real bytes, by theorem once C04 lands (the invariant CInv is "
+         "structured for that).",
     note=SEQ_NOTE,
 )
 META["C17"] = dict(
